@@ -87,32 +87,37 @@ Fixpoint take_digits (s : bytes) : list Z * bytes :=
 Definition expect (c : Z) (s : bytes) : option bytes :=
   match s with x :: r => if x =? c then Some r else None | [] => None end.
 
-Definition rec_numeric (sg : Z) (s : bytes) : option zone :=
-  match take2 s with
-  | Some (hh, r) =>
-    match expect 58 r with
-    | Some r' => match take2 r' with Some (mm, []) => Some (Numeric sg hh mm) | _ => None end
-    | None => None
-    end
-  | None => None
-  end.
-Definition rec_zone (s : bytes) : option zone :=
+Definition obind {X Y} (x : option X) (f : X -> option Y) : option Y :=
+  match x with Some a => f a | None => None end.
+(** numeric offset after its sign: hh ":" mm *)
+Definition rec_numeric (sg : Z) (s : bytes) : option (zone * bytes) :=
+  obind (take2 s) (fun '(hh, s) =>
+  obind (expect 58 s) (fun s =>
+  obind (take2 s) (fun '(mm, s) => Some (Numeric sg hh mm, s)))).
+(** time-offset at the head of [s]: "Z" / "z" / ("+" / "-" / U+2212) hh ":" mm *)
+Definition rec_zone (s : bytes) : option (zone * bytes) :=
   match s with
-  | [c] => if (c =? 90) || (c =? 122) then Some (Zulu c) else None
-  | 43 :: r => rec_numeric 0 r
-  | 45 :: r => rec_numeric 1 r
-  | 226 :: 136 :: 146 :: r => rec_numeric 2 r
-  | _ => None
+  | [] => None
+  | c :: r =>
+    if (c =? 90) || (c =? 122) then Some (Zulu c, r)
+    else if c =? 43 then rec_numeric 0 r
+    else if c =? 45 then rec_numeric 1 r
+    else match r with
+         | c2 :: c3 :: r' => if (c =? 226) && (c2 =? 136) && (c3 =? 146) then rec_numeric 2 r' else None
+         | _ => None
+         end
   end.
+(** optional time-secfrac at the head of [s]: "." 1*DIGIT *)
 Definition rec_frac (s : bytes) : option (list Z * bytes) :=
   match s with
-  | 46 :: r => match take_digits r with ([], _) => None | (ds, r') => Some (ds, r') end
-  | _ => Some ([], s)
+  | c :: r =>
+      if c =? 46 then match take_digits r with ([], _) => None | (ds, r') => Some (ds, r') end
+      else Some ([], s)
+  | [] => Some ([], s)
   end.
 Definition is_sep (c : Z) : bool := (c =? 84) || (c =? 116) || (c =? 32).
 
-Definition obind {X Y} (x : option X) (f : X -> option Y) : option Y :=
-  match x with Some a => f a | None => None end.
+(** date-time = full-date sep partial-time time-offset, and nothing after it *)
 Definition recognise (s : bytes) : option fields :=
   obind (take4 s) (fun '(y, s) =>
   obind (expect 45 s) (fun s =>
@@ -129,8 +134,11 @@ Definition recognise (s : bytes) : option fields :=
     obind (expect 58 s) (fun s =>
     obind (take2 s) (fun '(sec, s) =>
     obind (rec_frac s) (fun '(fr, s) =>
-    obind (rec_zone s) (fun z =>
-    Some (mk_fields y mo d sep h mi sec fr z))))))))
+    obind (rec_zone s) (fun '(z, s) =>
+    match s with
+    | [] => Some (mk_fields y mo d sep h mi sec fr z)
+    | _ => None
+    end)))))))
   end))))).
 
 (** * Semantic validity and denotation *)
